@@ -78,6 +78,7 @@ type c13Input struct {
 
 type c13Out struct {
 	OK        bool     `json:"ok"`
+	Panic     bool     `json:"panic"`
 	Minted    *big.Int `json:"minted"`
 	Staking   *big.Int `json:"staking"`
 	Community *big.Int `json:"community"`
@@ -88,11 +89,13 @@ type c13Out struct {
 }
 
 type c13Obs struct {
-	Params c13Params `json:"params"` // as read back from the keeper before the first op
-	Period uint64    `json:"period"`
-	Skip   uint64    `json:"skipped"`
-	Module *big.Int  `json:"module"`
-	Ops    []c13Out  `json:"ops"`
+	// probe, once per run: does AfterEpochEnd panic when the provision is positive but below one unibi?
+	ZeroMintPanics bool      `json:"zero_mint_panics"`
+	Params         c13Params `json:"params"` // as read back from the keeper before the first op
+	Period         uint64    `json:"period"`
+	Skip           uint64    `json:"skipped"`
+	Module         *big.Int  `json:"module"`
+	Ops            []c13Out  `json:"ops"`
 }
 
 func decOf(raw string) sdk.Dec {
@@ -140,6 +143,7 @@ type c13World struct {
 }
 
 var world *c13World
+var zeroMintPanics bool
 
 type snap struct{ supply, fee, pool, root, module sdkmath.Int }
 
@@ -163,6 +167,12 @@ func runC13(t *testing.T, in c13Input) c13Obs {
 			feeColl:  a.AccountKeeper.GetModuleAddress(authtypes.FeeCollectorName),
 			module:   a.AccountKeeper.GetModuleAddress(inflationtypes.ModuleName),
 		}
+		pctx, _ := ctx.CacheContext()
+		a.InflationKeeper.Params.Set(pctx, toParams(c13Params{Enabled: true, Started: true, Factors: []string{"400000000000"},
+			Dist: c13Dists[0], EPP: 30, PPY: 12, Max: 96}))
+		a.InflationKeeper.CurrentPeriod.Set(pctx, 0)
+		a.InflationKeeper.NumSkippedEpochs.Set(pctx, 0)
+		zeroMintPanics = Recover(func() { a.EpochsKeeper.AfterEpochEnd(pctx, epochstypes.DayEpochID, 1) }) != ""
 	}
 	w := world
 	ctx, _ := w.ctx.CacheContext()
@@ -208,65 +218,67 @@ func runC13(t *testing.T, in c13Input) c13Obs {
 			CurrentEpochStartTime: now, CurrentEpochStartHeight: height, EpochCountingStarted: true,
 		})
 	}
-	obs := c13Obs{Params: fromParams(ik.GetParams(ctx)), Period: ik.CurrentPeriod.Peek(ctx),
+	obs := c13Obs{ZeroMintPanics: zeroMintPanics, Params: fromParams(ik.GetParams(ctx)), Period: ik.CurrentPeriod.Peek(ctx),
 		Skip: ik.NumSkippedEpochs.Peek(ctx), Module: w.snap(ctx).module.BigInt(), Ops: []c13Out{}}
 	for _, op := range in.Ops {
 		before := w.snap(ctx)
 		ok := true
-		switch op.Op {
-		case "end":
-			if in.Mode == "clock" && op.Day {
-				now = now.Add(24 * time.Hour)
-				height++
-				bctx := ctx.WithBlockHeader(tmproto.Header{Height: height, Time: now})
-				epochs.BeginBlocker(bctx, *w.app.EpochsKeeper)
-			} else {
-				id := epochstypes.DayEpochID
-				if !op.Day {
-					id = epochstypes.WeekEpochID
+		panicked := Recover(func() {
+			switch op.Op {
+			case "end":
+				if in.Mode == "clock" && op.Day {
+					now = now.Add(24 * time.Hour)
+					height++
+					bctx := ctx.WithBlockHeader(tmproto.Header{Height: height, Time: now})
+					epochs.BeginBlocker(bctx, *w.app.EpochsKeeper)
+				} else {
+					id := epochstypes.DayEpochID
+					if !op.Day {
+						id = epochstypes.WeekEpochID
+					}
+					w.app.EpochsKeeper.AfterEpochEnd(ctx, id, op.E)
 				}
-				w.app.EpochsKeeper.AfterEpochEnd(ctx, id, op.E)
-			}
-		case "toggle":
-			sender := w.root
-			if !op.Auth {
-				sender = w.stranger
-			}
-			ok = ik.Sudo().ToggleInflation(ctx, op.B, sender) == nil
-		case "edit":
-			sender := w.root
-			if !op.Auth {
-				sender = w.stranger
-			}
-			msg := inflationtypes.MsgEditInflationParams{Sender: sender.String()}
-			if op.Factors != nil {
-				msg.PolynomialFactors = []sdk.Dec{}
-				for _, f := range *op.Factors {
-					msg.PolynomialFactors = append(msg.PolynomialFactors, decOf(f))
+			case "toggle":
+				sender := w.root
+				if !op.Auth {
+					sender = w.stranger
+				}
+				ok = ik.Sudo().ToggleInflation(ctx, op.B, sender) == nil
+			case "edit":
+				sender := w.root
+				if !op.Auth {
+					sender = w.stranger
+				}
+				msg := inflationtypes.MsgEditInflationParams{Sender: sender.String()}
+				if op.Factors != nil {
+					msg.PolynomialFactors = []sdk.Dec{}
+					for _, f := range *op.Factors {
+						msg.PolynomialFactors = append(msg.PolynomialFactors, decOf(f))
+					}
+				}
+				if op.Dist != nil {
+					d := *op.Dist
+					msg.InflationDistribution = &inflationtypes.InflationDistribution{
+						StakingRewards: decOf(d[0]), CommunityPool: decOf(d[1]), StrategicReserves: decOf(d[2])}
+				}
+				u := func(p *uint64) *sdkmath.Int {
+					if p == nil {
+						return nil
+					}
+					x := sdkmath.NewIntFromUint64(*p)
+					return &x
+				}
+				msg.EpochsPerPeriod, msg.PeriodsPerYear, msg.MaxPeriod = u(op.EPP), u(op.PPY), u(op.Max)
+				ok = ik.Sudo().EditInflationParams(ctx, msg, sender) == nil
+			case "fund":
+				if err := w.app.BankKeeper.MintCoins(ctx, inflationtypes.ModuleName, Unibi(op.Amt)); err != nil {
+					t.Fatal(err)
 				}
 			}
-			if op.Dist != nil {
-				d := *op.Dist
-				msg.InflationDistribution = &inflationtypes.InflationDistribution{
-					StakingRewards: decOf(d[0]), CommunityPool: decOf(d[1]), StrategicReserves: decOf(d[2])}
-			}
-			u := func(p *uint64) *sdkmath.Int {
-				if p == nil {
-					return nil
-				}
-				x := sdkmath.NewIntFromUint64(*p)
-				return &x
-			}
-			msg.EpochsPerPeriod, msg.PeriodsPerYear, msg.MaxPeriod = u(op.EPP), u(op.PPY), u(op.Max)
-			ok = ik.Sudo().EditInflationParams(ctx, msg, sender) == nil
-		case "fund":
-			if err := w.app.BankKeeper.MintCoins(ctx, inflationtypes.ModuleName, Unibi(op.Amt)); err != nil {
-				t.Fatal(err)
-			}
-		}
+		}) != ""
 		after := w.snap(ctx)
 		obs.Ops = append(obs.Ops, c13Out{
-			OK: ok, Minted: after.supply.Sub(before.supply).BigInt(), Staking: after.fee.Sub(before.fee).BigInt(),
+			OK: ok, Panic: panicked, Minted: after.supply.Sub(before.supply).BigInt(), Staking: after.fee.Sub(before.fee).BigInt(),
 			Community: after.pool.Sub(before.pool).BigInt(), Strategic: after.root.Sub(before.root).BigInt(),
 			Module: after.module.BigInt(), Period: ik.CurrentPeriod.Peek(ctx), Skipped: ik.NumSkippedEpochs.Peek(ctx),
 		})
